@@ -2707,3 +2707,253 @@ mod tests {
         }
     }
 }
+
+/// Verification hooks (cargo feature `verif`): the autoalloc state machine without the event loop,
+/// with an injected queue handler and injected rate limiter constants.
+#[cfg(feature = "verif")]
+pub mod verif {
+    use super::*;
+    use crate::common::rpc::ResponseToken;
+    use serde_json::{Value, json};
+    use std::time::Duration;
+    use tako::worker::WorkerConfiguration;
+
+    pub use crate::server::autoalloc::queue::{
+        AllocationExternalStatus, AllocationStatusMap, AllocationSubmissionResult, QueueHandler,
+        SubmitMode,
+    };
+    pub use crate::server::autoalloc::state::{Allocation, AllocationState};
+
+    pub struct SimAutoAlloc {
+        state: AutoAllocState,
+        senders: AutoallocSenders,
+    }
+
+    fn manager_info(allocation_id: &str) -> ManagerInfo {
+        ManagerInfo {
+            manager: ManagerType::Slurm,
+            allocation_id: allocation_id.to_string(),
+            time_limit: None,
+            max_memory_mb: None,
+        }
+    }
+
+    impl SimAutoAlloc {
+        pub fn new(server: ServerRef, events: EventStreamer, queue_id_initial: u32) -> Self {
+            SimAutoAlloc {
+                state: AutoAllocState::new(queue_id_initial),
+                senders: AutoallocSenders { server, events },
+            }
+        }
+
+        /// `create_queue` with an injected handler and limiter constants.
+        pub fn add_queue(
+            &mut self,
+            params: QueueParameters,
+            handler: Box<dyn QueueHandler>,
+            delays: Vec<Duration>,
+            max_submission_fails: u64,
+            max_allocation_fails: u64,
+        ) -> QueueId {
+            let queue = AllocationQueue::new(
+                QueueInfo::new(params.clone()),
+                params.name.clone(),
+                handler,
+                RateLimiter::new(delays, max_submission_fails, max_allocation_fails),
+                None,
+            );
+            let id = self.state.add_queue(queue, None);
+            self.senders.events.on_allocation_queue_created(id, params);
+            id
+        }
+
+        pub async fn worker_connected(
+            &mut self,
+            worker_id: WorkerId,
+            allocation_id: &str,
+            config: WorkerConfiguration,
+        ) -> bool {
+            handle_message(
+                &mut self.state,
+                &self.senders.events,
+                AutoAllocMessage::WorkerConnected {
+                    id: worker_id,
+                    config,
+                    manager_info: manager_info(allocation_id),
+                },
+            )
+            .await
+        }
+
+        pub async fn worker_lost(
+            &mut self,
+            worker_id: WorkerId,
+            allocation_id: &str,
+            details: LostWorkerDetails,
+        ) -> bool {
+            handle_message(
+                &mut self.state,
+                &self.senders.events,
+                AutoAllocMessage::WorkerLost(worker_id, manager_info(allocation_id), details),
+            )
+            .await
+        }
+
+        pub async fn pause(&mut self, id: QueueId) -> bool {
+            let (token, rx) = ResponseToken::new();
+            handle_message(
+                &mut self.state,
+                &self.senders.events,
+                AutoAllocMessage::PauseQueue {
+                    id,
+                    response: token,
+                },
+            )
+            .await;
+            rx.await.map(|r| r.is_ok()).unwrap_or(false)
+        }
+
+        pub async fn resume(&mut self, id: QueueId) -> bool {
+            let (token, rx) = ResponseToken::new();
+            handle_message(
+                &mut self.state,
+                &self.senders.events,
+                AutoAllocMessage::ResumeQueue {
+                    id,
+                    response: token,
+                },
+            )
+            .await;
+            rx.await.map(|r| r.is_ok()).unwrap_or(false)
+        }
+
+        pub async fn remove_queue(&mut self, id: QueueId, force: bool) -> bool {
+            let (token, rx) = ResponseToken::new();
+            handle_message(
+                &mut self.state,
+                &self.senders.events,
+                AutoAllocMessage::RemoveQueue {
+                    id,
+                    force,
+                    response: token,
+                },
+            )
+            .await;
+            rx.await.map(|r| r.is_ok()).unwrap_or(false)
+        }
+
+        /// The scheduling tick of `autoalloc_process`.
+        pub async fn perform_submits(&mut self) -> bool {
+            if !self.state.has_active_queues() {
+                return true;
+            }
+            perform_submits(&mut self.state, &self.senders).await.is_ok()
+        }
+
+        /// The periodic refresh of `autoalloc_process`.
+        pub async fn periodic_update(&mut self) {
+            if self.state.has_active_queues() {
+                do_periodic_update(&self.senders, &mut self.state).await;
+            }
+        }
+
+        /// What the scheduler currently asks for, per active queue: (queue, sn workers, mn allocations, mn workers per allocation)
+        pub fn demand(&self) -> Vec<(QueueId, u32, u32, u32)> {
+            let queues: Vec<_> = self
+                .state
+                .queues()
+                .filter(|(_, q)| q.state().is_active())
+                .collect();
+            if queues.is_empty() {
+                return vec![];
+            }
+            let queries: Vec<WorkerTypeQuery> = queues
+                .iter()
+                .map(|(_, q)| create_queue_worker_query(q))
+                .collect();
+            match compute_query_responses(&self.senders, queries) {
+                Ok(rs) => queues
+                    .iter()
+                    .zip(rs)
+                    .map(|((id, _), r)| {
+                        (
+                            *id,
+                            r.single_node_workers,
+                            r.multinode_allocations,
+                            r.multinode_workers_per_alloc,
+                        )
+                    })
+                    .collect(),
+                Err(_) => vec![],
+            }
+        }
+
+        pub fn shift_time(&mut self, d: Duration) {
+            for (_, q) in self.state.queues_mut() {
+                q.limiter_mut().verif_shift(d);
+            }
+        }
+
+        pub fn queue_of_allocation(&self, allocation_id: &str) -> Option<QueueId> {
+            self.state.get_queue_id_by_allocation(allocation_id)
+        }
+
+        pub fn snapshot(&self) -> Value {
+            let mut queues: Vec<Value> = self
+                .state
+                .queues()
+                .map(|(id, q)| {
+                    let mut allocs: Vec<Value> = q
+                        .all_allocations()
+                        .map(|a| {
+                            let (st, conn, disc, errs): (&str, Vec<u32>, u64, u32) = match &a.status {
+                                AllocationState::Queued { status_error_count } => {
+                                    ("Queued", vec![], 0, *status_error_count)
+                                }
+                                AllocationState::Running {
+                                    connected_workers,
+                                    disconnected_workers,
+                                    status_error_count,
+                                    ..
+                                } => (
+                                    "Running",
+                                    connected_workers.iter().map(|w| w.as_num()).collect(),
+                                    disconnected_workers.count(),
+                                    *status_error_count,
+                                ),
+                                AllocationState::Finished {
+                                    disconnected_workers,
+                                    ..
+                                } => ("Finished", vec![], disconnected_workers.count(), 0),
+                                AllocationState::FinishedUnexpectedly {
+                                    connected_workers,
+                                    disconnected_workers,
+                                    ..
+                                } => (
+                                    "FinishedUnexpectedly",
+                                    connected_workers.iter().map(|w| w.as_num()).collect(),
+                                    disconnected_workers.count(),
+                                    0,
+                                ),
+                            };
+                            let mut conn = conn;
+                            conn.sort_unstable();
+                            json!({"id": a.id, "st": st, "target": a.target_worker_count, "connected": conn,
+                                   "n_disconnected": disc, "errs": errs})
+                        })
+                        .collect();
+                    allocs.sort_by(|a, b| a["id"].as_str().cmp(&b["id"].as_str()));
+                    let (level, sub_fails, alloc_fails, attempted, delay_ms) = q.limiter().verif_dump();
+                    json!({"id": id, "active": q.state().is_active(), "backlog": q.info().backlog(),
+                           "max_per_alloc": q.info().max_workers_per_alloc(),
+                           "max_workers": q.info().max_worker_count().map(|x| x as i64).unwrap_or(-1),
+                           "allocs": allocs,
+                           "lim": {"level": level, "sub_fails": sub_fails, "alloc_fails": alloc_fails,
+                                   "attempted": attempted, "delay_ms": delay_ms}})
+                })
+                .collect();
+            queues.sort_by_key(|q| q["id"].as_u64());
+            json!({"queues": queues})
+        }
+    }
+}
